@@ -459,6 +459,12 @@ func checkMain(args []string) int {
 			j.MaxPaths, _ = tierVal(u.MaxPaths, tier)
 			j.Frontier, _ = tierVal(u.Split, tier)
 			j.DeadlineS, _ = tierVal(u.DeadlineS, tier)
+			if j.DeadlineS == 0 { // no job may run away: an exceeded deadline ends the job as TIMEBUDGET (inconclusive)
+				j.DeadlineS = 900
+				if tier == "thorough" {
+					j.DeadlineS = 7200
+				}
+			}
 			w := u.Weight
 			if v, ok := as["vfLen"]; ok {
 				w = w*100 + v
